@@ -287,3 +287,98 @@ Lemma period_and_pruning (N wmax w de : R) : 10 < N -> 0 < wmax -> 0 < w ->
   epochs_per_sample RNum N wmax w = wmax / w /\
   (keep_edge RNum (prune_threshold RNum de N wmax) w = false <-> w < wmax / N).
 Proof. intros HN Hm Hw. split; [apply eps_exact; lra | exact (pruned_iff_weak de N wmax w HN Hm)]. Qed.
+
+(* ---- the clock inside the real run: edge i's epoch_of_next_sample evolves exactly as the isolated clock ---- *)
+Lemma length_upd {A} (l : list A) i v : length (upd l i v) = length l.
+Proof. revert i; induction l as [|x l IH]; intros [|i]; simpl; auto. Qed.
+Lemma nth_upd_other {A} (l : list A) i j v d : i <> j -> nth i (upd l j v) d = nth i l d.
+Proof. revert i j; induction l as [|x l IH]; intros [|i] [|j] H; simpl; auto; try lia. Qed.
+
+Section Clock.
+Variables a b gamma : R.
+Variable mo : bool.
+Variable nv : Z.
+
+Lemma edge_step_next_len alpha n s i ed :
+  length (s_next RNum (edge_step RNum a b gamma alpha mo nv n s i ed)) = length (s_next RNum s).
+Proof.
+  unfold edge_step. destruct (leb RNum _ _); [|reflexivity].
+  destruct (neg_loop RNum _ _ _ _ _ _ _ _ _) as [e2 st']. cbn [s_next]. apply length_upd.
+Qed.
+
+Lemma edge_step_next_other alpha n s i' ed i : i <> i' ->
+  nth i (s_next RNum (edge_step RNum a b gamma alpha mo nv n s i' ed)) 0 = nth i (s_next RNum s) 0.
+Proof.
+  intros H. unfold edge_step. destruct (leb RNum _ _); [|reflexivity].
+  destruct (neg_loop RNum _ _ _ _ _ _ _ _ _) as [e2 st']. cbn [s_next]. now apply nth_upd_other.
+Qed.
+
+Definition tick (nxt n p : R) : R := if Rleb nxt n then nxt + p else nxt.
+
+Lemma edges_from_next alpha (n : R) : forall es start s i, (i < length (s_next RNum s))%nat ->
+  nth i (s_next RNum (edges_from RNum a b gamma alpha mo nv n start es s)) 0 =
+    if (Nat.leb start i && Nat.ltb i (start + length es))%bool
+    then tick (nth i (s_next RNum s) 0) n (e_eps RNum (nth (i - start) es (mkEdge RNum 0 0 0 0)))
+    else nth i (s_next RNum s) 0.
+Proof.
+  induction es as [|ed es IH]; intros start s i Hi; cbn [edges_from length].
+  - replace (Nat.leb start i && Nat.ltb i (start + 0))%bool with false; [reflexivity|].
+    symmetry. apply andb_false_iff. destruct (Nat.leb_spec start i); [right; apply Nat.ltb_ge; lia | now left].
+  - rewrite IH by (rewrite edge_step_next_len; exact Hi).
+    destruct (Nat.eq_dec i start) as [->|Hne].
+    + (* this edge: processed now, later edges have larger indices *)
+      replace (Nat.leb (S start) start && Nat.ltb start (S start + length es))%bool with false
+        by (symmetry; apply andb_false_iff; left; apply Nat.leb_gt; lia).
+      replace (Nat.leb start start && Nat.ltb start (start + S (length es)))%bool with true
+        by (symmetry; apply andb_true_iff; split; [apply Nat.leb_le|apply Nat.ltb_lt]; lia).
+      rewrite Nat.sub_diag. cbn [nth]. unfold tick. now rewrite visit_iff_due.
+    + rewrite edge_step_next_other by assumption.
+      destruct (Nat.leb_spec (S start) i) as [H1|H1]; destruct (Nat.leb_spec start i) as [H2|H2]; try lia; cbn [andb].
+      * replace (Nat.ltb i (start + S (length es))) with (Nat.ltb i (S start + length es)) by (f_equal; lia).
+        destruct (Nat.ltb i (S start + length es)); [|reflexivity].
+        replace (i - start)%nat with (S (i - S start)) by lia. reflexivity.
+      * reflexivity.
+Qed.
+
+(* the clock value after a run, in terms of the isolated clock: next + (number of visits) * period *)
+Fixpoint clock (p : R) (fuel : nat) (n : Z) (next : R) : R :=
+  match fuel with
+  | O => next
+  | S f => clock p f (n + 1)%Z (tick next (IZR n) p)
+  end.
+
+Lemma clock_visits p : forall fuel n next, clock p fuel n next = next + INR (Rvisits p fuel n next) * p.
+Proof.
+  induction fuel as [|f IH]; intros n next; cbn [clock]; [cbn; lra|].
+  unfold Rvisits in *. cbn [visits]. cbn [leb of_Z RNum]. unfold tick.
+  destruct (Rleb next (IZR n)); rewrite IH; [rewrite S_INR; cbn [add RNum]; rn; lra | reflexivity].
+Qed.
+
+Theorem run_clock alpha0 nepochs es i : (i < length es)%nat ->
+  forall fuel n s, length (s_next RNum s) = length es ->
+  nth i (s_next RNum (run_from RNum a b gamma alpha0 mo nv nepochs es fuel n s)) 0
+    = clock (e_eps RNum (nth i es (mkEdge RNum 0 0 0 0))) fuel n (nth i (s_next RNum s) 0).
+Proof.
+  intros Hi. induction fuel as [|f IH]; intros n s Hl; cbn [run_from clock]; [reflexivity|].
+  assert (Hlen: forall alpha nn, length (s_next RNum (epoch RNum a b gamma alpha mo nv nn es s)) = length es).
+  { intros alpha nn. unfold epoch. clear IH. revert s Hl. generalize 0%nat.
+    induction es as [|ed es' IHes]; intros st s Hl; cbn [edges_from]; [exact Hl|].
+    (* length is preserved by every edge step *)
+    assert (G: forall (es0 : list (edge RNum)) st0 s0, length (s_next RNum (edges_from RNum a b gamma alpha mo nv nn st0 es0 s0)) = length (s_next RNum s0)).
+    { induction es0 as [|e0 es0 IH0]; intros st0 s0; cbn [edges_from]; [reflexivity|]. rewrite IH0. apply edge_step_next_len. }
+    rewrite G, edge_step_next_len. exact Hl. }
+  rewrite IH by apply Hlen.
+  f_equal. unfold epoch. rewrite edges_from_next by (rewrite Hl; exact Hi).
+  replace (Nat.leb 0 i && Nat.ltb i (0 + length es))%bool with true
+    by (symmetry; apply andb_true_iff; split; [apply Nat.leb_le|apply Nat.ltb_lt]; lia).
+  rewrite Nat.sub_0_r. reflexivity.
+Qed.
+
+(* hence, in the real run of N epochs from the initial clocks, edge i has been visited (clock - p)/p =
+   visits p N 0 p times, with visit_count giving the closed form *)
+Corollary run_visits alpha0 es i s (N : nat) : (i < length es)%nat -> length (s_next RNum s) = length es ->
+  let p := e_eps RNum (nth i es (mkEdge RNum 0 0 0 0)) in
+  nth i (s_next RNum s) 0 = p ->
+  nth i (s_next RNum (run_from RNum a b gamma alpha0 mo nv (Z.of_nat N) es N 0 s)) 0 = p + INR (Rvisits p N 0 p) * p.
+Proof. intros Hi Hl p Hp. rewrite run_clock by assumption. rewrite Hp. apply clock_visits. Qed.
+End Clock.
